@@ -55,6 +55,8 @@ def col_role(e):
 
 def run(ctx, col, tier):
     repo = ctx.repo
+    from ..rules import stateless as _stateless_memo
+    _stateless_memo.run_memo(ctx, col)
     col.rule("R-UNIF", "the row permutation is applied to the container's whole key set, every "
              "column indexed by the permutation component of one renumbering call, ids/parent ids "
              "overwritten by that call's new topology, topology passed as (ids, parent ids)",
